@@ -57,6 +57,15 @@ func valueSet() []*big.Int {
 	for _, s := range []int64{-1, 0, 1, 7, -8, 9, 10, 255, 256} {
 		add(big.NewInt(s))
 	}
+	// round decimal numbers (the text-to-limb conversions work on groups of decimal digits):
+	// 10^k, 12*10^k and -(10^k) around every digit-group size up to the 78 digits of u256
+	for _, k := range []int64{8, 9, 10, 17, 18, 19, 20, 27, 36, 37, 38, 39, 45, 54, 63, 72, 76, 77} {
+		p := new(big.Int).Exp(big.NewInt(10), big.NewInt(k), nil)
+		add(p)
+		add(new(big.Int).Neg(p))
+		add(new(big.Int).Mul(p, big.NewInt(12)))
+		add(new(big.Int).Add(p, big.NewInt(1)))
+	}
 	for _, e := range []uint{63, 64, 127, 128, 255, 256} {
 		p := new(big.Int).Lsh(one, e)
 		for _, d := range []int64{-1, 0, 1} {
